@@ -57,19 +57,27 @@ Range(f) == {f[x] : x \in DOMAIN f}
 (* a string (sequence of code points) matches iff all its characters are allowed.                        *)
 (* (harness/schema_scen.py holds the concrete regex texts and cross-checks this table with `re`.)        *)
 
-PatIds == {"ab", "bc", "b", "bmpx", "astral"}
+PatIds == {"ab", "bc", "b", "bmpx", "astral", "ar1", "ar2", "ar3", "ar8"}
 CP_a == 97
 CP_b == 98
 CP_c == 99
 CP_eacute == 233
 CP_grin == 128512  \* U+1F600
-PatAllowed(p) ==
-    CASE p = "ab"     -> {CP_a, CP_b}
-      [] p = "bc"     -> {CP_b, CP_c}
-      [] p = "b"      -> {CP_b}
-      [] p = "bmpx"   -> {CP_b, CP_eacute}
-      [] p = "astral" -> {CP_b, CP_grin}
-Matches(p, s) == \A j \in 1..Len(s) : s[j] \in PatAllowed(p)
+\* Every pattern is ^[...]*$ ; PatRanges(p) = the inclusive code-point ranges inside the brackets.
+\* "ar<n>": b plus an astral range whose UTF-16 form spans n high surrogates (U+10000 = D800 DC00; one high
+\* surrogate covers 0x400 code points), so that the rewriting for UTF-16 engines meets its 1 / 2 / 3 / many cases.
+PatRanges(p) ==
+    CASE p = "ab"     -> {<<CP_a, CP_b>>}
+      [] p = "bc"     -> {<<CP_b, CP_c>>}
+      [] p = "b"      -> {<<CP_b, CP_b>>}
+      [] p = "bmpx"   -> {<<CP_b, CP_b>>, <<CP_eacute, CP_eacute>>}
+      [] p = "astral" -> {<<CP_b, CP_b>>, <<CP_grin, CP_grin>>}
+      [] p = "ar1"    -> {<<CP_b, CP_b>>, <<65536, 65551>>}      \* U+10000 - U+1000F : D800 only
+      [] p = "ar2"    -> {<<CP_b, CP_b>>, <<65541, 66565>>}      \* U+10005 - U+10405 : D800 - D801
+      [] p = "ar3"    -> {<<CP_b, CP_b>>, <<65536, 68607>>}      \* U+10000 - U+10BFF : D800 - D802 (exactly three)
+      [] p = "ar8"    -> {<<CP_b, CP_b>>, <<66000, 73727>>}      \* U+101D0 - U+11FFF : D800 - D807
+PatAllows(p, cp) == \E r \in PatRanges(p) : r[1] <= cp /\ cp <= r[2]
+Matches(p, s) == \A j \in 1..Len(s) : PatAllows(p, s[j])
 
 \* constant sets of strings (ids) and of enumeration literals; values are abstract tokens
 SetIds == {"S_ab", "S_bc", "S_c", "E_rg", "E_gb", "E_b"}
